@@ -255,6 +255,101 @@ def tag_format_twice(c):
     c.replay("code", code=REPLAY_TAGCOUNT)
 
 
+REPLAY_TAG_PERCENT = r'''
+def run(m):
+    import asyncio
+    from liquid import Environment
+    env = Environment(extra=True)
+    bad = []
+    for src, data, want in (("{% translate %}100%{{ x }}{% endtranslate %}", {"x": "X"}, "100%X"), ("{% translate %}50%{{ x }}%{{ y }}%%{% endtranslate %}", {"x": "X", "y": "Y"}, "50%X%Y%%"),
+                            ("{% translate %}Hi {{ some-name }}!{% endtranslate %}", {"some-name": "N"}, "Hi N!"), ("{% translate %}{{ ['a b'] }}{% endtranslate %}", {"a b": "N"}, "N"),
+                            ("{% translate %}%(x)s %s {{ x }}{% endtranslate %}", {"x": "X"}, "%(x)s %s X")):
+        t = env.from_string(src)
+        for a in (False, True):
+            try:
+                got = asyncio.run(t.render_async(**data)) if a else t.render(**data)
+            except Exception as e:
+                got = "raised " + type(e).__name__
+            if got != want:
+                bad.append((src, got, want))
+    return {"violated": bool(bad), "observed": bad[:4], "witness": "translate-tag-placeholder-not-resolved"}
+'''
+
+
+@contract(TAG + ":TranslateNode._format_message", prop="C26", name="translate-tag._format_message[any message text: every placeholder printf-style formatting finds is resolved from the context]")
+def tag_format_any(c):
+    """For ANY wellformed message text (what validate_message_block builds, lemma below; a
+    catalogue may reorder or drop placeholders), formatting never fails for want of a
+    variable: the mapping given to `%` resolves whatever key is asked for."""
+    c.model_int_str_limit()
+    env = mk_env(c, autoescape=VBool(z3.BoolVal(False)), undefined=VClass("liquid.undefined", "Undefined"))
+    ctx = mk_ctx(c, env)
+    text = c.str("message_text")
+    c.requires(z3.Function("printf_wellformed", S, B)(text.t), "the message text is a wellformed printf format (literal text with doubled %, %(name)s placeholders)")
+    self = c.obj(TAG + ":TranslateNode", "node", token=NONE)
+
+    def tls(eng, st, a, k):
+        outs = [(st.fork(), VStr(z3.String(f"liquid_string_{len(st.log)}")))]
+        outs.append((st.fork(), Raised(VExc("LiquidValueError", (const("int too large"),)))))
+        st.log.append(("to_liquid_string",))
+        return outs
+    c.summary("liquid.stringify:to_liquid_string", tls)   # its own contract (C02): a string or a LiquidValueError
+    c.call(ctx, text, self_val=self)
+    c.raises("LiquidError")
+
+    def post(r):
+        pf = [e for e in r.st.log if e[0] == "printf"]
+        if len(pf) != 1 or not isinstance(pf[0][1], VStr) or not z3.eq(z3.simplify(pf[0][1].t), text.t):
+            return z3.BoolVal(False)
+        return z3.BoolVal(True)
+    c.ensures("the-message-text-itself-is-formatted-exactly-once", post)
+    c.assume_note("CPython printf-style formatting of a wellformed format with a mapping calls mapping[key] for each %(key)s and nothing else; executed for one arbitrary key")
+    c.replay("code", code=REPLAY_TAG_PERCENT)
+
+
+# ---- lemma: the message text the tag builds is literal text with every % doubled and one
+# ---- %(name)s per variable, name free of parentheses -- the wellformed format assumed above
+
+for _shape in (("text",), ("var",), ("text", "var"), ("var", "text"), ("text", "var", "text"), ("var", "var"), ("text", "var", "text", "var")):
+    def _mkvalidate(shape):
+        @contract(TAG + ":TranslateTag.validate_message_block", prop="C26", name=f"translate-tag.validate_message_block[nodes={'+'.join(shape)}: text with % doubled, one %(name)s per variable]")
+        def vb(c):
+            env = mk_env(c)
+            nodes, parts, names = [], [], []
+            for i, kind in enumerate(shape):
+                if kind == "text":
+                    t = c.str(f"text{i}")
+                    nodes.append(c.obj("liquid.builtin.content:ContentNode", f"content{i}", text=t, token=NONE))
+                    parts.append(z3.Function("str_replace_all", S, S, S, S)(t.t, z3.StringVal("%"), z3.StringVal("%%")))
+                else:
+                    v = c.str(f"name{i}")
+                    names.append(v)
+                    path = c.obj("liquid.builtin.expressions.path:Path", f"path{i}", path=c.st.alloc(HList(items=[v])), token=NONE)
+                    fe = c.obj("liquid.builtin.expressions.filtered:FilteredExpression", f"expr{i}", left=path, filters=c.st.alloc(HList(items=[])), token=NONE)
+                    nodes.append(c.obj("liquid.builtin.output:OutputNode", f"output{i}", expression=fe, token=NONE))
+                    parts += [z3.StringVal("%("), v.t, z3.StringVal(")s")]
+            block = c.obj("liquid.ast:BlockNode", "block", nodes=c.st.alloc(HList(items=nodes)), token=NONE, blank=c.bool("blank"))
+            self = c.obj(TAG + ":TranslateTag", "tag", env=env, trim_messages=VBool(z3.BoolVal(False)))
+            c.opaque_str_classes |= {"Path"}
+            c.call(block, self_val=self)
+            paren = z3.Or(*[z3.Or(z3.Contains(v.t, z3.StringVal("(")), z3.Contains(v.t, z3.StringVal(")"))) for v in names]) if names else z3.BoolVal(False)
+            want = parts[0] if len(parts) == 1 else z3.Concat(*parts)
+
+            def post(r):
+                h = r.st.deref(r.value) if isinstance(r.value, VRef) else None
+                if not isinstance(h, HObj) or h.cls[1] != "MessageBlock":
+                    return z3.BoolVal(False)
+                vs = r.engine.concrete_items(r.st, h.fields["vars"])
+                ok_vars = vs is not None and len(vs) == len(names) and all(isinstance(a, VStr) and z3.eq(a.t, b.t) for a, b in zip(vs, names))
+                return z3.And(z3.Not(paren), unbox_s(h.fields["text"]) == want, z3.BoolVal(bool(ok_vars and h.fields["block"] == block)))
+            c.ensures("text-is-the-pieces-in-order(%-doubled-in-literal-text,%(name)s-per-variable)-and-no-name-has-a-parenthesis", post)
+            c.raises("TranslationSyntaxError")
+            c.ensures_exc("rejected-only-for-a-name-with-a-parenthesis", lambda r: paren)
+            c.assume_note("trim_messages off (whitespace normalisation is the regular expression re_whitespace, covered by the bounded sweep)")
+            c.replay("code", code=REPLAY_TAG_PERCENT)
+    _mkvalidate(_shape)
+
+
 @contract(TAG + ":TranslateNode.resolve_count", prop="C26")
 def resolve_count(c):
     """the count used to choose the form is the integer value of the count argument, 1 when
